@@ -55,6 +55,16 @@ theorem C16b_removeIf_update (p : Params) (pred : BPair → Bool) :
     rw [List.filter_eq_self]; intro x hx; simp [hf x hx]
   simp [Params.removeIf, this]
 
+/-- the object model of the owning url (`Impl.UrlObj.spApply f false`, the rendering of `remove` /
+    `remove2` on an owned list) writes back exactly when the length changed: that is this model's
+    `updated` flag, i.e. the C++ `if (count) update()` -/
+theorem C16b_update_iff_length (p : Params) (pred : BPair → Bool) :
+    (p.removeIf pred).updated = true ↔ (p.removeIf pred).params.list.length ≠ p.list.length := by
+  have h := (C16b_removeIf_count p pred).2
+  have hz : (p.removeIf pred).updated = true ↔ (p.removeIf pred).count ≠ 0 := by
+    simp [Params.removeIf]
+  rw [hz]; omega
+
 /-- `remove(name)` / `remove(name, value)` are `del` with a result -/
 theorem C16b_remove (p : Params) (n v : List Nat) :
     (p.remove n).params = p.del n ∧ (p.remove2 n v).params = p.del2 n v ∧
